@@ -297,11 +297,20 @@ class ThreeQubitDiagonalGate(raw_types.Gate):
         """
 
         a, b, c = qubits
+        order = (0, 1, 2)
         if hasattr(b, 'is_adjacent'):
             if not b.is_adjacent(a):
                 b, c = c, b
+                order = (0, 2, 1)
             elif not b.is_adjacent(c):
                 a, b = b, a
+                order = (1, 0, 2)
+        # The angles are indexed by the bits of the given qubits; when the roles of the qubits are
+        # exchanged above, the angles are re-indexed by the bits of (a, b, c).
+        angles = [
+            self._diag_angles_radians[sum(((i >> (2 - k)) & 1) << (2 - order[k]) for k in range(3))]
+            for i in range(8)
+        ]
         sweep_abc = [common_gates.CNOT(a, b), common_gates.CNOT(b, c)]
         phase_matrix_inverse = 0.25 * np.array(
             [
@@ -314,9 +323,7 @@ class ThreeQubitDiagonalGate(raw_types.Gate):
                 [1, 1, -1, -1, 1, 1, -1],
             ]
         )
-        shifted_angles_tail = [
-            angle - self._diag_angles_radians[0] for angle in self._diag_angles_radians[1:]
-        ]
+        shifted_angles_tail = [angle - angles[0] for angle in angles[1:]]
         phase_solutions = phase_matrix_inverse.dot(shifted_angles_tail)
         p_gates = [pauli_gates.Z ** (solution / np.pi) for solution in phase_solutions]
         global_phase = 1j ** (2 * self._diag_angles_radians[0] / np.pi)
